@@ -1100,6 +1100,12 @@ def reductions(case):
     for i in range(len(ops)):
         if ops[i][1]:
             yield encode(pool, ops[:i] + [(ops[i][0], 0, ops[i][2])] + ops[i + 1:])
+    # plain fixnums instead of bignum / rational / float spellings of the same integer
+    for i, (op, dest, args) in enumerate(ops):
+        for j, a in enumerate(args):
+            k = exact_int(a) if isinstance(a, tuple) else None
+            if k is not None and -(1 << 63) <= k < (1 << 63):
+                yield encode(pool, ops[:i] + [(op, dest, args[:j] + [k] + args[j + 1:])] + ops[i + 1:])
     for k, t in enumerate(pool):
         for j in range(len(t)):
             yield encode(pool[:k] + [t[:j] + t[j + 1:]] + pool[k + 1:], ops)
